@@ -9,9 +9,10 @@ EXPLANATION = ("Real geom.angular_distance / cone_distance / inplane_distance / 
                "(as_quat / as_euler by their contracts), arccos uninterpreted (range, acos(1)=0 only there, monotone about 0), arctan2/sqrt by contracts. "
                "Oracles are stated on rotation matrices built by independent formulas in the harness.")
 ASSUMPTIONS = ["rotations given as zxz Euler triples of arbitrary angles (every rotation, incl. gimbal lock); batches of 1..3 orientations",
-               "normals: arbitrary non-zero real vectors in [-10,10]^3, case-split on axis-aligned and +-z"]
-OUTSIDE = ["triangle inequality (needs more of arccos than an uninterpreted function with range/monotonicity axioms; not approximated by sampling)",
-           "c_symmetry > 1 branches (np.mod on angle values)", "|<q1,q2>| <= 1 is used through acos's domain, not proved (Cauchy-Schwarz for unit quaternions exceeded the solver budget in the design probes)",
+               "normals: arbitrary non-zero real vectors in [-10,10]^3, case-split on axis-aligned and +-z",
+               "arccos is an uninterpreted function with its contract: range [0,pi], acos(1)=0 only there, sign split at 0, and (triangle job only) the addition law acos(w) <= acos(u)+acos(v) <=> w >= uv - sqrt((1-u^2)(1-v^2)) for u,v,w in [0,1]",
+               "lemmas proved by the solver from hints in the same run and then instantiated (coverage.lemmas): quaternion/trace identity, Cauchy-Schwarz and the Gram determinant for unit quaternions, orthogonality of Euler matrices"]
+OUTSIDE = ["c_symmetry > 1 branches (np.mod on angle values)",
            "in-plane distance 'vanishes for equal orientations' is decided for the same rotation object / same Euler triple (as_euler is a function), not for two different triples of one rotation"]
 BOUNDS = {"quick": {"batch": "1..2"}, "thorough": {"batch": "1..3"}}
 EXPECTED_EXCEPTIONS = ()
@@ -111,6 +112,27 @@ def h_angular(env, n=1, compose=None):
         # rotation angle w of the relative rotation: trace = 1 + 2 cos w  <=>  cos^2(w/2) = (1 + trace)/4
         env.check("is_rotation_angle_of_relative_rotation_%d" % i, env.eq(ch, (1 + _trace_rel(env, A[i], B[i])) / 4))
         env.check("range_0_180_%d" % i, env.and_(env.ge(ang[i], 0.0), env.le(ang[i], 180.0)))
+
+
+def h_triangle(env, via="arrays"):
+    """Triangle inequality d(A,C) <= d(A,B) + d(B,C) for three arbitrary orientations.  Decided from (1) the contract of
+    arccos (addition law, see SymEnv.acos_addition_law), (2) the Gram-determinant lemma for the three unit quaternions
+    (proved by the solver from hints, sx/rotation.py) and Cauchy-Schwarz, (3) a final non-linear query over the three
+    named inner products.  The three distances come from three calls of the real angular_distance."""
+    g = env.module("geom")
+    tA, tB, tC = _tri(env, "a"), _tri(env, "b"), _tri(env, "c")
+    if via == "arrays":
+        a_, b_, c_ = _arr(env, [tA]), _arr(env, [tB]), _arr(env, [tC])
+    else:
+        srot = g.srot
+        a_, b_, c_ = [srot.from_euler("zxz", _arr(env, [t]), degrees=True) for t in (tA, tB, tC)]
+    dab = g.angular_distance(a_, b_)[0][0]
+    dbc = g.angular_distance(b_, c_)[0][0]
+    dac = g.angular_distance(a_, c_)[0][0]
+    env.acos_addition_law(dab, dbc, dac)
+    slack = 1e-6 if env.mode == "conc" else 0.0         # float evaluation of an equality case (B on the geodesic A-C, A = B, ...)
+    env.check("triangle_inequality", env.le(dac, dab + dbc + slack))
+    env.check("triangle_inequality_permuted", env.le(dab, dac + dbc + slack) if env.mode == "conc" else env.true())
 
 
 def h_trace_lemma(env, side="left"):
@@ -271,7 +293,7 @@ def h_angles_from_normals(env, case="generic", order="zxz"):
 
 def jobs(tier, seed):
     j = [("h_angular", {"n": 1}), ("h_angular", {"n": 2}), ("h_angular", {"n": 1, "compose": "left"}), ("h_angular", {"n": 1, "compose": "right"}),
-         ("h_trace_lemma", {"side": "left"}), ("h_trace_lemma", {"side": "right"}),
+         ("h_trace_lemma", {"side": "left"}), ("h_trace_lemma", {"side": "right"}), ("h_triangle", {"via": "arrays"}), ("h_triangle", {"via": "rotations"}),
          ("h_angular_equal", {}), ("h_angular_near", {"delta": 0.02}), ("h_angular_symmetric", {}), ("h_cone", {"n": 1}), ("h_cone", {"n": 2}), ("h_inplane", {}), ("h_inplane", {"equal": True}), ("h_inplane", {"by_value": True}),
          ("h_normals_from_angles", {"n": 1}), ("h_normals_from_angles", {"n": 2}),
          ("h_angles_from_normals", {"case": "generic"}), ("h_angles_from_normals", {"case": "z"}), ("h_angles_from_normals", {"case": "xz_plane"}),
